@@ -943,8 +943,9 @@ def temps_expr(rnd, k, leaves):
 
 
 def argclobber_program(rnd):
-    """Calls whose later actuals need several temporaries while earlier actuals (array addresses, indices) already sit
-    in their parameter slots, in procedures whose frame has already been deepened by earlier statements."""
+    """Calls whose later actuals need several temporaries, or contain calls of their own (also inside subscripts), while
+    earlier actuals (array addresses, indices) already sit in their parameter slots, in procedures whose frame has already
+    been deepened by earlier statements."""
     nvals = rnd.randrange(0, 3)
     order = rnd.choice(["array-first", "array-last", "array-mid"])
     formals = [("val", "v%d" % i) for i in range(nvals + 1)]
@@ -965,6 +966,11 @@ def argclobber_program(rnd):
             "body": ("ret", ("var", "p0"))}
     locs = ["x", "y", "z", "c", "d"]
     leaves = [("var", n) for n in locs] + [("num", rnd.randrange(1, 30))]
+    if rnd.random() < 0.5:
+        # calls inside the later actuals: on their own, inside a subscript, inside a nested subscript
+        leaves += [("call", "one", []), ("sub", "tab", ("call", "one", [])), ("sub", "tab", ("bin", "+", ("call", "one", []), ("num", 1))),
+                   ("sub", "tab", ("bin", "-", ("sub", "tab", ("call", "one", [])), ("num", 100))),
+                   ("call", "many", [("sub", "tab", ("call", "one", []))] + [("num", 2)] * (len(many["formals"]) - 1))]
     stmts = [("ass", ("var", n), ("num", 3 + i * 7)) for i, n in enumerate(locs)]
     for i in range(4):
         stmts.append(("ass", ("sub", "tab", ("num", i)), ("num", 100 + i)))
